@@ -166,6 +166,12 @@ def generic_resolver(mf, crate_prefixes):
             out = [n for n in out if mf.func(n).locals.get(1, "").strip().startswith("&") == by_ref]
         if len(out) == 1:
             return out[0]
+        if len(out) == 2 and method == "clone" and self_ty is not None:
+            # `#[derive(Clone)]` next to an inherent `fn clone(instance: &Self) -> Self`: two items of one signature; the call path
+            # `Type::clone` names the inherent one (listed later in the impl order of the dump)
+            sigs = {(mf.func(n).locals.get(1, "").strip(), mf.func(n).ret_ty.strip()) for n in out}
+            if len(sigs) == 1:
+                return sorted(out, key=lambda n: mf.items[n][0])[-1]
         if not out and self_ty is not None:
             # associated function without `self` whose signature does not mention the type (e.g. `Type::is_xyz(&str) -> bool`):
             # accept when the method name is unique in the crate
